@@ -23,6 +23,15 @@ structural reader ``models/table_reader.py`` (column positions from the '+' mark
                        the first line iterator is advanced k lines (every k), then the second is started and
                        exhausted, then the first is finished; also strictly alternating. Each table is judged alone.
 
+  F8 print / grow    : a table is printed, records are appended to the caller's list (shorter, longer, None values,
+                       enough to make limits apply), the table is printed again: each complete printing is judged
+                       against the records it started with (after the first printing the widths are settled, so a
+                       longer value may be cut with dots even below the configured maximum)
+  F9 shared format   : ``t2 = PPTable(records2, fmt_obj=t1.fmt, limits=.., skip_columns=..)`` (+ ``t2.remove_columns``),
+                       the pattern of ak/mcaller_sql.py: t1 before / after / suspended in the middle of its line
+                       iteration while t2 is built and printed must satisfy the oracle for ITS columns and limits,
+                       t2 for its own
+
 Oracle (from the statement): one width for all lines; borders identical; '|' under every '+' in title and
 record rows; every column width inside [min, max]; every title / record cell is the expected text padded
 with blanks, or - only when the text is longer than the cell and the column already has its maximum
@@ -69,6 +78,14 @@ ASSUMPTIONS = [
     "records (documented in ReprColumn/PPTableFormat); limits count body lines including break lines",
     "when the body has exactly n+m+1 lines both 'show all' and 'skip one' satisfy the statement; both are accepted",
     "the default footer ('Total N records') is checked for width only",
+    "mutating the records list while a printing of the same table is unfinished (a suspended line iterator) is "
+    "caller misuse and outside the quantifier ('for all record sets'); only complete printings before and after "
+    "a mutation are judged (family F8)",
+    "a table printed again after its records list grew keeps the widths settled by the first printing: there a "
+    "cell may be truncated whenever its text is longer than the column (the literal reading of the statement)",
+    "operations on a table built from another table's format object are configuration of that second table "
+    "only; that the first table's text stays byte-identical is not demanded (only that it still satisfies "
+    "the oracle for its own description), a change is counted as obs:shared-fmt:first-table-text-changed",
     "the Python type of a yielded line is not part of the property: a line that is a raw list of chunks is "
     "rendered with CHText(line) and counted as obs:line-is-raw-chunk-list",
 ]
@@ -88,6 +105,10 @@ REQUIRED_FEATURES = [
     "footer:default", "titles:multi-line", "titles:uneven-line-counts",
     "interleave:one-preemption", "interleave:zip", "interleave:same-table-object",
     "interleave:second-started-while-first-suspended",
+    "reprint:records-appended", "reprint:longer-value-appended", "reprint:limits-start-to-apply",
+    "shared-fmt:second-table-from-fmt_obj", "shared-fmt:limits-on-second", "shared-fmt:skip_columns-on-second",
+    "shared-fmt:remove_columns-on-second", "shared-fmt:first-mid-iteration", "shared-fmt:first-printed-before",
+    "shared-fmt:first-not-printed-before",
 ]
 
 BREAK, SKIP = "break", "skip"
@@ -129,7 +150,7 @@ def make_fmt(case):
     return fmt
 
 
-def make_table(case):
+def make_table(case, records=None):
     kw = {"fields": list(case["fields"]), "fmt": make_fmt(case)}
     if case.get("limits") is not None and case.get("lim_via") != "fmt":
         kw["limits"] = tuple(case["limits"])
@@ -143,7 +164,7 @@ def make_table(case):
         kw["fields_titles"] = {k: (tuple(v) if isinstance(v, list) else v) for k, v in case["titles"].items()}
     if case.get("enums"):
         kw["fields_types"] = {f: PPEnumFieldType(dict(ENUMS[name])) for f, name in case["enums"].items()}
-    return PPTable([tuple(r) for r in case["records"]], **kw)
+    return PPTable([tuple(r) for r in case["records"]] if records is None else records, **kw)
 
 
 def title_lines(case, field):
@@ -226,7 +247,7 @@ def _coltype(case, col):
     return "plain"
 
 
-def verify(case, text, feats=None):
+def verify(case, text, feats=None, strict_trunc=True):
     """None or (signature part, message, observed, expected) for one rendering of the table."""
     feats = feats if feats is not None else set()
     cols = case["cols"]
@@ -237,6 +258,9 @@ def verify(case, text, feats=None):
     if len(t.col_widths) != len(cols):
         return ("column-count", f"{len(t.col_widths)} columns printed, {len(cols)} configured", text, len(cols))
     bounds_ = [col_bounds(c) for c in cols]
+    # strict_trunc=False (a table printed again after its records list grew: the widths were settled by the
+    # first printing): a cell may be truncated whenever the text is longer than the column
+    tmax = [b[1] if strict_trunc else -1 for b in bounds_]
     for ci, (w, (lo, hi)) in enumerate(zip(t.col_widths, bounds_)):
         if w < lo:
             return ("width-below-min", f"column {ci} is {w} wide, minimum {lo}", text, [lo, hi])
@@ -265,7 +289,7 @@ def verify(case, text, feats=None):
             return ("separator-misplaced:title", f"title row {li}: no '|' under some '+'", [t.lines[0], row.raw], None)
         for ci, cell in enumerate(row.cells):
             want = tls[ci][li] if li < len(tls[ci]) else ""
-            p = _cell_problem(cell, [want], t.col_widths[ci], bounds_[ci][1])
+            p = _cell_problem(cell, [want], t.col_widths[ci], tmax[ci])
             if p == "T":
                 feats.add("obs:title:truncated")
             elif p is not None:
@@ -310,7 +334,7 @@ def verify(case, text, feats=None):
                 for ci, (col, cell) in enumerate(zip(cols, row.cells)):
                     value = rec[fidx[col["f"]]]
                     cands = desired_texts(case, col, value)
-                    p = _cell_problem(cell, cands, t.col_widths[ci], bounds_[ci][1])
+                    p = _cell_problem(cell, cands, t.col_widths[ci], tmax[ci])
                     ctype = _coltype(case, col)
                     if p == "T":
                         pf.add("obs:cell:truncated")
@@ -469,7 +493,8 @@ def case_features(case, feats):
             feats.add("titles:uneven-line-counts")
 
 
-NONTRIVIAL = {"interleave:second-started-while-first-suspended", "interleave:zip", "cell:longer-than-max", "width:zero", "body:break-line", "limits:must-apply", "limits:n+m+1",
+NONTRIVIAL = {"reprint:records-appended", "shared-fmt:second-table-from-fmt_obj",
+              "interleave:second-started-while-first-suspended", "interleave:zip", "cell:longer-than-max", "width:zero", "body:break-line", "limits:must-apply", "limits:n+m+1",
               "enum:full", "enum:val", "enum:name", "enum:default-modifier", "header:longer-than-table",
               "footer:longer-than-table", "titles:multi-line", "title:longer-than-max"}
 
@@ -493,9 +518,123 @@ def _render_lines(table, feats):
     return now, [_line_text(ln, feats) for ln in kept]
 
 
+def _print_both(table, feats):
+    """Whole text and line iteration of one table object -> list of (label, text)."""
+    text = table.ch_text(no_color=True).plain_text()
+    out = [("", text)]
+    lines, later = _render_lines(table, feats)
+    if "\n".join(lines) != text:
+        out.append(("by-line:", "\n".join(lines)))
+    if later != lines:
+        out.append(("kept-lines:", "\n".join(later)))
+    return out
+
+
+def _verify_all(case, renderings, feats, prefix, strict_trunc=True):
+    for label, text in renderings:
+        v = verify(case, text, feats, strict_trunc)
+        if v is not None:
+            return (prefix + label + v[0], v[1], v[2], v[3])
+    return None
+
+
+def check_reprint(case, acc):
+    """A table is printed, the caller's records list grows, the table is printed again: every complete
+    printing must satisfy the property for the records it was started with."""
+    spec = case["reprint"]
+    c1 = spec["t"]
+    c2 = dict(c1, records=c1["records"] + spec["append"])
+    feats = set()
+    acc.trans(4)
+    try:
+        records = [tuple(r) for r in c1["records"]]
+        table = make_table(c1, records)
+        first = _print_both(table, feats)
+        records.extend(tuple(r) for r in spec["append"])
+        second = _print_both(table, feats)
+    except Exception as e:  # noqa
+        return (f"reprint:raises:{type(e).__name__}", f"printing raised {type(e).__name__}: {e}", repr(e), "a table"), \
+            feats, None
+    v = _verify_all(c1, first, feats, "reprint:first-printing:")
+    if v is None:
+        v = _verify_all(c2, second, set(), "reprint:after-append:", strict_trunc=False)
+    return v, feats, second[0][1]
+
+
+def shared_second_case(spec):
+    """Reference description of the second table, built from the first table's format object."""
+    c1 = spec["t1"]
+    gone = set(spec.get("skip2") or []) | set(spec.get("remove2") or [])
+    c2 = {"fields": c1["fields"], "records": spec["records2"],
+          "cols": [c for c in c1["cols"] if c["f"] not in gone],
+          "limits": spec["limits2"] if "limits2" in spec else c1.get("limits")}
+    for key in ("titles", "enums"):
+        if c1.get(key):
+            c2[key] = c1[key]
+    return c2
+
+
+def check_shared_fmt(case, acc):
+    """t2 = PPTable(records2, fmt_obj=t1.fmt, limits=.., skip_columns=..) (+ t2.remove_columns) - the pattern of
+    ak/mcaller_sql.py.  Whatever is done to t2, t1 keeps its own columns and limits: printed afterwards (and
+    while its line iterator is suspended during the construction of t2) it must satisfy the oracle for its own
+    description; t2 must satisfy the oracle for its description."""
+    spec = case["shared_fmt"]
+    c1, c2 = spec["t1"], shared_second_case(spec)
+    feats = set()
+    acc.trans(4)
+    mid = None
+    before = None
+    try:
+        t1 = make_table(c1)
+        if spec.get("t1_printed_first"):
+            before = _print_both(t1, feats)
+        k = spec.get("k")
+        if k is not None:
+            g1 = iter(t1.ch_text(no_color=True))
+            l1 = []
+            for _ in range(k):
+                try:
+                    l1.append(next(g1))
+                except StopIteration:
+                    break
+        kw = {"fmt_obj": t1.fmt}
+        if "limits2" in spec:
+            kw["limits"] = tuple(spec["limits2"])
+        if spec.get("skip2"):
+            kw["skip_columns"] = list(spec["skip2"])
+        t2 = PPTable([tuple(r) for r in spec["records2"]], **kw)
+        if spec.get("remove2"):
+            t2.remove_columns(list(spec["remove2"]))
+        second = _print_both(t2, feats)
+        if k is not None:
+            l1.extend(g1)
+            mid = "\n".join(_line_text(x, feats) for x in l1)
+        after = _print_both(t1, feats)
+    except Exception as e:  # noqa
+        return (f"shared-fmt:raises:{type(e).__name__}", f"raised {type(e).__name__}: {e}", repr(e), "two tables"), \
+            feats, None
+    v = None
+    if before is not None:
+        v = _verify_all(c1, before, feats, "shared-fmt:first-table-before:")
+        if v is None and before[0][1] != after[0][1]:
+            feats.add("obs:shared-fmt:first-table-text-changed")
+    if v is None and mid is not None:
+        v = _verify_all(c1, [("", mid)], set(), "shared-fmt:first-table-mid-iteration:")
+    if v is None:
+        v = _verify_all(c1, after, set(), "shared-fmt:first-table-after:")
+    if v is None:
+        v = _verify_all(c2, second, set(), "shared-fmt:second-table:")
+    return v, feats, after[0][1]
+
+
 def check_case(case, acc):
     if "interleave" in case:
         return check_interleaved(case, acc)
+    if "reprint" in case:
+        return check_reprint(case, acc)
+    if "shared_fmt" in case:
+        return check_shared_fmt(case, acc)
     feats = set()
     acc.trans(2)
     try:
@@ -577,6 +716,31 @@ def _one(acc, case, n):
             feats.add("interleave:same-table-object")
         if 0 < (spec["k"] if spec["k"] != "zip" else 0) < ref_line_count(spec["t1"]):
             feats.add("interleave:second-started-while-first-suspended")
+    elif "reprint" in case:
+        spec = case["reprint"]
+        case_features(spec["t"], feats)
+        feats.add("reprint:records-appended")
+        longest = max([len(str(x)) for r in spec["t"]["records"] for x in r] + [0])
+        if any(len(str(x)) > longest for r in spec["append"] for x in r):
+            feats.add("reprint:longer-value-appended")
+        p1, _ = body_plans(spec["t"])
+        p2, _ = body_plans(dict(spec["t"], records=spec["t"]["records"] + spec["append"]))
+        if not any(SKIP in p for p in p1) and all(SKIP in p for p in p2):
+            feats.add("reprint:limits-start-to-apply")
+    elif "shared_fmt" in case:
+        spec = case["shared_fmt"]
+        case_features(spec["t1"], feats)
+        feats.add("shared-fmt:second-table-from-fmt_obj")
+        if "limits2" in spec:
+            feats.add("shared-fmt:limits-on-second")
+        if spec.get("skip2"):
+            feats.add("shared-fmt:skip_columns-on-second")
+        if spec.get("remove2"):
+            feats.add("shared-fmt:remove_columns-on-second")
+        if spec.get("k") is not None:
+            feats.add("shared-fmt:first-mid-iteration")
+        feats.add("shared-fmt:first-printed-before" if spec.get("t1_printed_first") else
+                  "shared-fmt:first-not-printed-before")
     else:
         case_features(case, feats)
     if v is None:
@@ -786,9 +950,68 @@ def fam_F7(tier):
                     yield {"interleave": {"t1": c1, "t2": c2, "k": k, "same_object": 1}}
 
 
-FAMILIES = {"F7": fam_F7, "F1": fam_F1, "F2": fam_F2, "F3": fam_F3, "F4": fam_F4, "F5": fam_F5, "F6": fam_F6}
-PARTS = {"quick": {"F7": 8, "F1": 12, "F2": 24, "F3": 24, "F4": 16, "F5": 12, "F6": 12},
-         "thorough": {"F7": 16, "F1": 32, "F2": 64, "F3": 64, "F4": 48, "F5": 32, "F6": 32}}
+def fam_F8(tier):
+    """print, append records to the caller's list, print again"""
+    values = [1, "abc", None]
+    added = [1, "abcdefghijkl", None, "a|b"]
+    wspecs = [None, [0, 3], [2, 10], [3], [0]]
+    lims = [None, [1, 1], [2, 0]]
+    nrec = 3 if tier == "thorough" else 2
+    for seq, app, w, lim, bb in itertools.product(list(_seqs(values, 0, nrec)), list(_seqs(added, 1, 2)), wspecs, lims,
+                                                  (0, 1)):
+        case = {"fields": ["a", "id"], "records": [[v, 101 + i] for i, v in enumerate(seq)],
+                "cols": [{"f": "a", "w": w, "bb": bb}, {"f": "id", "w": None}]}
+        if lim is not None:
+            case["limits"] = lim
+        yield {"reprint": {"t": case, "append": [[v, 201 + i] for i, v in enumerate(app)]}}
+
+
+def _f9_first_tables():
+    rows = [[1, "x", "Linus"], [2, "x", "Arnold"], [2, "y", "Jerry"], [3, "y", "Elizer"], [3, "y", "Meriadoc"]]
+    plain = [{"f": "a", "w": None}, {"f": "b", "w": None}, {"f": "c", "w": None}]
+    out = [
+        {"fields": ["a", "b", "c"], "records": rows[:3], "cols": plain},
+        {"fields": ["a", "b", "c"], "records": rows, "cols": plain, "limits": [1, 1]},
+        {"fields": ["a", "b", "c"], "records": rows[:4],
+         "cols": [{"f": "a", "w": [2, 10], "bb": 1}, {"f": "c", "w": [0, 4]}, {"f": "b", "w": [1]}]},
+        {"fields": ["id", "st"], "records": [[1, 7], [2, 100], [3, 55]],
+         "cols": [{"f": "id", "w": None}, {"f": "st", "w": None, "mod": "full"}, {"f": "st", "w": None, "mod": "val"}],
+         "enums": {"st": "E1"}, "titles": {"st": "status\nof it"}},
+    ]
+    return out
+
+
+def fam_F9(tier):
+    """second table built from the first table's format object"""
+    absent = object()
+    for c1 in _f9_first_tables():
+        nf = len(c1["fields"])
+        fs = [c["f"] for c in c1["cols"]]
+        recs2 = [[], [c1["records"][0]], [[("v%d" % j) * 4 if nf == 3 or j == 0 else 7 for j in range(nf)]] * 2
+                 + [list(r) for r in c1["records"]] * 2]
+        skips = [None, [fs[0]], [fs[-1]]]
+        removes = [None, [fs[1]]]
+        ks = [None] + list(range(1, ref_line_count(c1)))
+        for r2, lim2, skip, rem, first, k in itertools.product(
+                recs2, [absent, [None, None], [1, 1], [0, 0]], skips, removes, (1, 0), ks):
+            gone = set(skip or []) | set(rem or [])
+            if all(f in gone for f in fs):
+                continue
+            spec = {"t1": c1, "records2": r2, "t1_printed_first": first}
+            if lim2 is not absent:
+                spec["limits2"] = lim2
+            if skip:
+                spec["skip2"] = skip
+            if rem:
+                spec["remove2"] = rem
+            if k is not None:
+                spec["k"] = k
+            yield {"shared_fmt": spec}
+
+
+FAMILIES = {"F8": fam_F8, "F9": fam_F9, "F7": fam_F7, "F1": fam_F1, "F2": fam_F2, "F3": fam_F3, "F4": fam_F4, "F5": fam_F5, "F6": fam_F6}
+PARTS = {"quick": {"F8": 4, "F9": 8, "F7": 8, "F1": 12, "F2": 24, "F3": 24, "F4": 16, "F5": 12, "F6": 12},
+         "thorough": {"F8": 8, "F9": 8, "F7": 16, "F1": 32, "F2": 64, "F3": 64, "F4": 48, "F5": 32, "F6": 32}}
 
 
 def bounds(tier):
@@ -806,6 +1029,11 @@ def bounds(tier):
                "modifiers": [None, "full", "val", "name"]},
         "F5": {"headers": HEADERS, "footers": FOOTERS, "titles": len(TITLES)},
         "F6": {"records": [4, 7 if th else 6]},
+        "F8": {"base_records": "<= 3" if th else "<= 2", "appended_records": "1..2 over 4 values (shorter, longer, None, a|b)",
+               "widths": 5, "limits": [None, [1, 1], [2, 0]], "break_by": [0, 1]},
+        "F9": {"first_tables": len(_f9_first_tables()), "records2": 3, "limits2": ["absent", [None, None], [1, 1], [0, 0]],
+               "skip_columns": ["absent", "first", "last"], "remove_columns": ["absent", "second"],
+               "first_printed_before": [1, 0], "first_suspended_after_k_lines": "none, every k"},
         "F7": {"tables": len(_f7_tables(tier)), "pairs": "all ordered pairs + the same table object twice",
                "schedules": "first iterator advanced k = 0..all lines, second run to the end, first finished; zip"},
     }
